@@ -479,9 +479,12 @@ class Analysis:
                         e = bs.a[1][el["name"]]
                         continue
                     e = E("vfield", e.a[0], e.a[1], el["name"])
-                elif e.k == "agg" and isinstance(e.a[1], dict) and el["name"] in e.a[1] and e.a[0] in ("tuple", "array"):
-                    # component of a tuple that was just built
+                elif e.k == "agg" and isinstance(e.a[1], dict) and el["name"] in e.a[1] and (e.a[0] in ("tuple", "array") or (el.get("adt") and str(e.a[0]).startswith(str(el["adt"]) + "::"))):
+                    # component of a tuple / field of a struct that was just built (a private carrier struct is transparent)
                     e = e.a[1][el["name"]]
+                elif e.k == "phi" and e.a[0] and all(a.k == "agg" and a.a[0] == "tuple" and isinstance(a.a[1], dict) and el["name"] in a.a[1] for a in e.a[0]):
+                    # component of a tuple chosen by a match: the choice of that component
+                    e = E("phi", [a.a[1][el["name"]] for a in e.a[0]])
                 else:
                     e = E("field", e, el["name"], meta=el.get("adt"))
             elif isinstance(el, dict) and "down" in el:
@@ -1017,6 +1020,35 @@ def subst(e, fn_map):
     if not changed:
         return e
     return E(e.k, *new_a, site=e.site, meta=e.meta)
+
+
+def deep_strip(e, depth=0):
+    """e with references, dereferences, reborrows, `mutated` markers and
+    transparent view conversions removed at *every* level: the access path of
+    a projection, independent of how often it was reborrowed on the way"""
+    e = unmut(e)
+    if depth > 40:
+        return e
+    new_a = []
+    for x in e.a:
+        if isinstance(x, E):
+            new_a.append(deep_strip(x, depth + 1))
+        elif isinstance(x, list):
+            new_a.append([deep_strip(y, depth + 1) if isinstance(y, E) else y for y in x])
+        elif isinstance(x, dict):
+            new_a.append({k: (deep_strip(v, depth + 1) if isinstance(v, E) else v) for k, v in x.items()})
+        else:
+            new_a.append(x)
+    return E(e.k, *new_a, site=e.site, meta=e.meta)
+
+
+def same_projection(e1, e2):
+    """do two expressions denote the same call-free access path (e.g.
+    self.seq), possibly in two different functions with the same parameters?"""
+    a, b = deep_strip(e1), deep_strip(e2)
+    if any(c.k in ("call", "icall") for c in a.walk()) or any(c.k in ("call", "icall") for c in b.walk()):
+        return False
+    return repr(a) == repr(b)
 
 
 def closure_of(e):
